@@ -18,7 +18,6 @@ import (
 	"os"
 	"path/filepath"
 	"regexp"
-	"sort"
 	"strconv"
 	"strings"
 	"sync"
@@ -769,25 +768,8 @@ func c19RunSession(dir string, sess *c19Session) (res c19SessResult) {
 		return
 	}
 	// order of the flavors in the snapshot
-	pos := map[string]int{}
-	for i, m := range c19FlavorRe.FindAllStringSubmatch(r1.Snapshot, -1) {
-		pos[strings.ToLower(m[1])] = i
+	for _, m := range c19FlavorRe.FindAllStringSubmatch(r1.Snapshot, -1) {
 		res.Order = append(res.Order, strings.ToLower(m[1]))
-	}
-	for _, d := range sess.Defs {
-		if d.Kind != "defflavor" {
-			continue
-		}
-		for _, dep := range d.Deps {
-			pd, hasD := pos[dep]
-			pu, hasU := pos[d.Name]
-			if hasD && hasU && pd > pu {
-				res.Aspect, res.Detail = "order", "defflavor"
-				res.Observed = fmt.Sprintf("%s is written before %s which it inherits from: %s", d.Name, dep, strings.Join(res.Order, " "))
-				res.Expected = "every flavor after the flavors it inherits from"
-				return
-			}
-		}
 	}
 	r2, err := c19RunWorker(dir, &c19Req{Mode: "load", File: "snap1.lisp", Probes: probes, Snap: true})
 	if err != nil {
@@ -925,9 +907,59 @@ func c19RunSessions(c *lib.Ctx) {
 		}(i)
 	}
 	wg.Wait()
-	invalid := 0
-	var orderReqs []string
+	// the order of the flavors in each snapshot, judged by the model: `lf close` flattens the
+	// session's direct components as slip does, `lf loads` defines the flavors in the observed order
+	// (loadFlavors: a flavor needs its components defined), `lf order` is the model's own order
+	var closeReqs []string
 	var orderIdx []int
+	for i := range results {
+		res := &results[i]
+		if res.Invalid != "" || len(res.Order) < 2 {
+			continue
+		}
+		var defs []string
+		for _, d := range res.Sess.Defs {
+			if d.Kind == "defflavor" {
+				defs = append(defs, d.Name+":"+strings.Join(d.Deps, ","))
+			}
+		}
+		closeReqs = append(closeReqs, "lf close "+strings.Join(defs, " "))
+		orderIdx = append(orderIdx, i)
+	}
+	closed := c.Model(closeReqs)
+	var reqs2 []string
+	for k, cl := range closed {
+		nodes := map[string]string{}
+		for _, n := range strings.Fields(strings.TrimPrefix(cl, "ok ")) {
+			name, _, _ := strings.Cut(n, ":")
+			nodes[name] = n
+		}
+		var observed []string
+		for _, name := range results[orderIdx[k]].Order {
+			if n, has := nodes[name]; has {
+				observed = append(observed, n)
+			}
+		}
+		reqs2 = append(reqs2, "lf order "+strings.TrimPrefix(cl, "ok "), "lf loads "+strings.Join(observed, " "))
+	}
+	replies := c.Model(reqs2)
+	agree := 0
+	for k, i := range orderIdx {
+		res := &results[i]
+		want := strings.Fields(strings.TrimPrefix(replies[2*k], "ok "))
+		if strings.Join(want, " ") == strings.Join(res.Order, " ") {
+			agree++
+		} else {
+			c.Ev.Hist("order_differs_from_model", fmt.Sprintf("%d flavors", len(want)))
+		}
+		if loads := strings.Fields(replies[2*k+1]); len(loads) >= 3 && loads[1] == "nil" {
+			// the model cannot define the flavors in the order of the snapshot
+			res.Aspect, res.Detail = "order", "defflavor"
+			res.Observed = fmt.Sprintf("%s is written before a flavor it inherits from: %s (load: %s)", loads[2], strings.Join(res.Order, " "), res.Observed)
+			res.Expected = "every flavor after the flavors it inherits from, e.g. the model's order " + strings.Join(want, " ")
+		}
+	}
+	invalid := 0
 	for i := range results {
 		res := &results[i]
 		n, kinds := c19SessionKinds(res.Sess)
@@ -950,43 +982,8 @@ func c19RunSessions(c *lib.Ctx) {
 		if i%(len(results)/4+1) == 0 {
 			c.Ev.Sample(map[string]any{"leg": "session", "forms": res.Sess.forms()})
 		}
-		if len(res.Order) >= 2 {
-			// the model's order of the same flavors (evidence: agreement of the order itself)
-			var defs []string
-			for _, d := range res.Sess.Defs {
-				if d.Kind == "defflavor" {
-					defs = append(defs, d.Name+":"+strings.Join(d.Deps, ","))
-				}
-			}
-			orderReqs = append(orderReqs, "lf close "+strings.Join(defs, " "))
-			orderIdx = append(orderIdx, i)
-		}
 		if res.Aspect != "" {
 			c.Report(c19SessionSignature(res), res.Sess.Cell != "", c19SessionReplay(res))
-		}
-	}
-	// model order
-	closed := c.Model(orderReqs)
-	var reqs2 []string
-	for _, cl := range closed {
-		reqs2 = append(reqs2, "lf order "+strings.TrimPrefix(cl, "ok "))
-	}
-	orders := c.Model(reqs2)
-	agree := 0
-	for k, i := range orderIdx {
-		want := strings.Fields(strings.TrimPrefix(orders[k], "ok "))
-		if strings.Join(want, " ") == strings.Join(results[i].Order, " ") {
-			agree++
-		} else {
-			c.Ev.Hist("order_differs_from_model", fmt.Sprintf("%d flavors", len(want)))
-			if results[i].Aspect == "order" {
-				// the oracle's expected order goes into the replay of the order violation
-				for vi := range c.Violations {
-					if c.Violations[vi].Signature == c19SessionSignature(&results[i]) {
-						c.Violations[vi].Replay["model_order"] = want
-					}
-				}
-			}
 		}
 	}
 	c.Ev.Coverage["order_cases"] = len(orderIdx)
@@ -998,7 +995,36 @@ func c19RunSessions(c *lib.Ctx) {
 		fmt.Fprintf(os.Stderr, "c19: %d of %d sessions did not evaluate — generator or environment broken\n", invalid, len(sessions))
 		os.Exit(2)
 	}
-	sort.Strings(orderReqs)
+}
+
+// c19ModelOrder applies the model's verdict on the flavor order of one session result.
+func c19ModelOrder(c *lib.Ctx, res *c19SessResult) {
+	if len(res.Order) < 2 {
+		return
+	}
+	var defs []string
+	for _, d := range res.Sess.Defs {
+		if d.Kind == "defflavor" {
+			defs = append(defs, d.Name+":"+strings.Join(d.Deps, ","))
+		}
+	}
+	cl := c.Model([]string{"lf close " + strings.Join(defs, " ")})[0]
+	nodes := map[string]string{}
+	for _, n := range strings.Fields(strings.TrimPrefix(cl, "ok ")) {
+		name, _, _ := strings.Cut(n, ":")
+		nodes[name] = n
+	}
+	var observed []string
+	for _, name := range res.Order {
+		if n, has := nodes[name]; has {
+			observed = append(observed, n)
+		}
+	}
+	if loads := strings.Fields(c.Model([]string{"lf loads " + strings.Join(observed, " ")})[0]); len(loads) >= 3 && loads[1] == "nil" {
+		res.Aspect, res.Detail = "order", "defflavor"
+		res.Observed = fmt.Sprintf("%s is written before a flavor it inherits from: %s", loads[2], strings.Join(res.Order, " "))
+		res.Expected = "every flavor after the flavors it inherits from"
+	}
 }
 
 func jsonUnmarshal(b []byte, v any) error { return json.Unmarshal(b, v) }
@@ -1022,6 +1048,7 @@ func c19ReplaySession(c *lib.Ctx, rec map[string]any) {
 			fmt.Println("  the session does not evaluate:", res.Invalid)
 			return
 		}
+		c19ModelOrder(c, &res)
 		if res.Aspect != "" {
 			fmt.Printf("  %s at %s\n  observed: %s\n  expected: %s\n", res.Aspect, res.Detail, res.Observed, res.Expected)
 			c.Report(c19SessionSignature(&res), false, map[string]any{"observed": res.Observed, "expected": res.Expected})
